@@ -528,6 +528,12 @@ def run_spec(spec: dict, capture: bool = True):
         Capture.current = cap if capture else None
         err, placements = None, []
         old_handler = signal.signal(signal.SIGVTALRM, _on_alarm)
+        # the budget is for schedule() itself: a full collection of the (large, thorough-tier) heap of the harness
+        # inside the call would be charged to it
+        import gc as _gc
+
+        _gc_was = _gc.isenabled()
+        _gc.disable()
         signal.setitimer(signal.ITIMER_VIRTUAL, CALL_TIMEOUT_S)
         try:
             res = world.scheduler.schedule(ET(now), world.workload, world.worker_pools)
@@ -559,6 +565,8 @@ def run_spec(spec: dict, capture: bool = True):
             signal.setitimer(signal.ITIMER_VIRTUAL, 0)
             signal.signal(signal.SIGVTALRM, old_handler)
             Capture.current = None
+            if _gc_was:
+                _gc.enable()
         if err == "ScheduleTimeout":
             lean_invs.append({"now": now, "offered": cap.offered or [], "workers": cap.view or pre_view, "load_err": None})
             obs.append({"err": err, "cancels": [], "batches": [], "state": [], "n_load_evict": 0})
